@@ -147,7 +147,9 @@ impl<'a> ExpressionEvaluator<'a> {
                 ))])
             }
             BoundExpression::Exists { query, negated } => {
-                todo!("Subquery evaluation is not yet implemented")
+                Err(EvaluationError::InvalidExpression(
+                    "subquery expressions are not supported".to_string(),
+                ))
             }
             BoundExpression::InList {
                 expr,
@@ -182,14 +184,18 @@ impl<'a> ExpressionEvaluator<'a> {
                 Ok(vec![DataType::Bool(Bool(*negated))])
             }
             BoundExpression::Subquery { query, result_type } => {
-                todo!("Subquery evaluation is not yet implemented")
+                Err(EvaluationError::InvalidExpression(
+                    "subquery expressions are not supported".to_string(),
+                ))
             }
             BoundExpression::InSubquery {
                 expr,
                 query,
                 negated,
             } => {
-                todo!("Subquery evaluation is not yet implemented")
+                Err(EvaluationError::InvalidExpression(
+                    "subquery expressions are not supported".to_string(),
+                ))
             }
             BoundExpression::Function {
                 func,
@@ -283,7 +289,12 @@ impl<'a> ExpressionEvaluator<'a> {
                     }
                 }
             }
-            _ => unreachable!("Should not reach here when calling the evaluator"),
+            // Aggregates outside an aggregation operator (e.g. in WHERE or HAVING), CASE and `*`
+            // cannot be evaluated row by row: that is an error of the statement, not a panic.
+            other => Err(EvaluationError::InvalidExpression(format!(
+                "expression cannot be evaluated here: {:?}",
+                std::mem::discriminant(other)
+            ))),
         }
     }
 
@@ -466,6 +477,16 @@ impl<'a> ExpressionEvaluator<'a> {
                 }
                 BinaryOperator::Multiply => {
                     Ok(vec![left[0].mul(&right[0]).map_err(EvaluationError::from)?])
+                }
+                BinaryOperator::Divide | BinaryOperator::Modulo
+                    if right[0].is_numeric()
+                        && !matches!(right[0], DataType::Float(_) | DataType::Double(_))
+                        && right[0].to_f64() == Some(0.0) =>
+                {
+                    // Integer division by zero is an error of the statement, not a panic of the worker.
+                    Err(EvaluationError::InvalidExpression(
+                        "division by zero".to_string(),
+                    ))
                 }
                 BinaryOperator::Divide => {
                     Ok(vec![left[0].div(&right[0]).map_err(EvaluationError::from)?])
